@@ -400,13 +400,35 @@ def wrap_store_rule(model, rep, rule):
     # result in [0, m) and congruent to a), not a function of it (np.fmod keeps the sign of the dividend, so abs(fmod(a, m)) mirrors angles below
     # -m; sign(a) * (a % m) is not congruent to a for a < -m)
     n_st = 0
+    MODF = ('np.mod', 'np.remainder', 'numpy.mod', 'numpy.remainder', 'np.fmod', 'numpy.fmod', 'math.fmod')
+
+    def remainder_of(v, tt):
+        """'same' when v is the angle itself, True when v is its remainder (or a selection between the remainder and the angle), else False"""
+        if norm_text(v) == tt:
+            return 'same'
+        if isinstance(v, ast.BinOp) and isinstance(v.op, ast.Mod) and norm_text(v.left) == tt:
+            return True
+        if isinstance(v, ast.Call) and norm_text(v.func) in MODF and len(v.args) == 2 and norm_text(v.args[0]) == tt:
+            return True
+        arms = None
+        if isinstance(v, ast.IfExp):
+            arms = (v.body, v.orelse)
+        elif isinstance(v, ast.Call) and norm_text(v.func) in ('np.where', 'numpy.where') and len(v.args) == 3:
+            arms = (v.args[1], v.args[2])
+        if arms is not None:
+            rs = [remainder_of(a_, tt) for a_ in arms]
+            return all(r_ in (True, 'same') for r_ in rs) and any(r_ is True for r_ in rs)
+        return False
     for fi in sib:
         angle = fi.params[0] if fi.params and fi.params[0] != 'self' else None
+        il_ = Inliner(fi)
         for st in walk_own(fi.node):
             if isinstance(st, ast.AugAssign):
                 tgt, val, aug = st.target, st.value, st.op
             elif isinstance(st, ast.Assign) and len(st.targets) == 1:
                 tgt, val, aug = st.targets[0], st.value, None
+            elif isinstance(st, ast.Return) and st.value is not None and angle is not None:
+                tgt, val, aug = ast.Name(id=angle, ctx=ast.Load()), st.value, None         # the value handed back for the angle
             else:
                 continue
             b = tgt
@@ -419,18 +441,19 @@ def wrap_store_rule(model, rep, rule):
             mentions = any(norm_text(x) == tt for x in ast.walk(val)) or (isinstance(b, ast.Name) and any(isinstance(x, ast.Name) and x.id == b.id for x in ast.walk(val)))
             if aug is None and not mentions:
                 continue                          # a conversion / re-binding that does not compute from the angle
-            n_st += 1
             if aug is not None:
                 ok = isinstance(aug, ast.Mod)
             else:
-                ok = (isinstance(val, ast.BinOp) and isinstance(val.op, ast.Mod) and norm_text(val.left) == tt) or \
-                     (isinstance(val, ast.Call) and norm_text(val.func) in ('np.mod', 'np.remainder', 'numpy.mod', 'numpy.remainder', 'np.fmod', 'numpy.fmod', 'math.fmod') and len(val.args) == 2
-                      and norm_text(val.args[0]) == tt)
+                r_ = remainder_of(val, tt)
+                if r_ == 'same':
+                    continue                      # the angle itself is handed back / stored back
+                ok = r_ is True
+            n_st += 1
             rep.ob(rule, fi, src(st)[:80], ok,
                    'the angle %s is replaced by %s, which is not its remainder modulo 2*pi (`a %% m`, np.mod, np.remainder, fmod): for some angles beyond the threshold '
                    '(e.g. below -2*pi when the sign of the dividend is kept or restored) the result is not congruent to the input - the rotation changes'
                    % (tt, norm_text(val)[:70]), line=st.lineno)
-    rep.floor(rule, 'angle stores of the wrap siblings', n_st, 5)
+    rep.floor(rule, 'angle stores of the wrap siblings', n_st, 3)
 
 
 def check(model, rep):
